@@ -160,6 +160,7 @@ DoSeek(st, wh, off) ==
    while that handle is open a call returns the next line at the CURRENT
    cursor, once it is closed the call raises (io_readline: "file is already
    closed"). *)
+RECURSIVE Apply0(_, _), ReadM(_, _, _), LegalM(_, _, _)
 Apply0(st, o) ==
     IF o.op = "open" THEN DoOpen(st, o.a)
     ELSE IF o.op = "peek" THEN R(st, Data(st, 0, st.len))
@@ -169,7 +170,7 @@ Apply0(st, o) ==
     ELSE IF st.closed THEN R(st, <<"error">>)
     ELSE IF o.op = "getiter" THEN
          (IF Readable(st.mode) THEN R([st EXCEPT !.it = "cur"], <<"ok">>) ELSE R(st, <<"any">>))
-    ELSE IF o.op \in {"read", "readline", "readall", "readnum", "lines"} /\ ~Readable(st.mode)
+    ELSE IF o.op \in {"read", "readline", "readall", "readnum", "readm", "lines"} /\ ~Readable(st.mode)
          THEN R(st, IF o.op = "lines" THEN <<"any">> ELSE <<"fail">>)
     ELSE IF o.op = "write" /\ ~Writable(st.mode) THEN R(st, <<"fail">>)
     ELSE IF o.op \in {"flush", "setvbuf"} /\ ~Writable(st.mode) THEN R(st, <<"any">>)
@@ -193,6 +194,25 @@ Apply0(st, o) ==
            [] o.op = "flush" -> R([st EXCEPT !.last = "none", !.pend = FALSE], <<"ok">>)
            [] o.op = "setvbuf" -> R([st EXCEPT !.buf = o.a, !.bsz = o.n], <<"ok">>)
            [] o.op = "close" -> R([st EXCEPT !.closed = TRUE, !.last = "none", !.pend = FALSE], <<"ok">>)
+           [] o.op = "readm" -> ReadM(st, o.fs, 1)
+
+(* f:read(fmt1, fmt2, ..) (liolib.c g_read): formats are processed left to
+   right and each pushes its result; the FIRST one that fails pushes nil and
+   ends the call: later formats are not evaluated and push nothing, the
+   cursor stays where the failing format left it.  "*a" never fails, count 0
+   succeeds with "" unless at end of file.  Result <<"multi", <<r1, ..>>>>. *)
+ReadM(st, fs, i) ==
+    IF i > Len(fs) THEN R([st EXCEPT !.last = "read"], <<"multi", <<>>>>)
+    ELSE LET r == Apply0(st, FmtOp(fs[i])) IN
+         IF r.exp[1] = "eof" THEN R(r.st, <<"multi", <<r.exp>>>>)
+         ELSE LET t == ReadM(r.st, fs, i + 1) IN R(t.st, <<"multi", <<r.exp>> \o t.exp[2]>>)
+
+(* every "*n" that is reached must meet an input the restricted numeral model decides *)
+LegalM(st, fs, i) ==
+    IF i > Len(fs) THEN TRUE
+    ELSE LET o == FmtOp(fs[i]) IN
+         /\ (o.op = "readnum" => NumWellFormed(st))
+         /\ LET r == Apply0(st, o) IN IF r.exp[1] = "eof" THEN TRUE ELSE LegalM(r.st, fs, i + 1)
 
 (***************************************************************************)
 (* The histories the property quantifies over.  ISO C 7.19.5.3: input must *)
@@ -218,6 +238,8 @@ Legal0(st, o) ==
                        Readable(st.mode) => (st.last # "write" /\ st.cur # -1)
                  [] o.op = "readnum" ->
                        Readable(st.mode) => (st.last # "write" /\ st.cur # -1 /\ NumWellFormed(st))
+                 [] o.op = "readm" ->
+                       Readable(st.mode) => (st.last # "write" /\ st.cur # -1 /\ LegalM(st, o.fs, 1))
                  [] o.op = "write" -> Writable(st.mode) => st.last # "read"
                  [] o.op = "seek" -> o.a = "cur" => st.cur # -1
                  [] o.op = "setvbuf" -> ~st.pend
@@ -229,6 +251,7 @@ Legal(st, o) == Legal0(st, NormOp(o))
    name the case when the real code disagrees) *)
 StepRec(st, o, e) ==
     [op |-> o.op, a |-> o.a, n |-> o.n, tag |-> st.nw, exp |-> e,
+     fs |-> IF "fs" \in DOMAIN o THEN o.fs ELSE <<>>,
      pre |-> [closed |-> st.closed, mode |-> st.mode, pend |-> st.pend]]
 
 (* the file on disk once the handle is closed *)
